@@ -237,11 +237,15 @@ class Unit:
                     item.loops[ordn] = blk
                 elif word == 'ins':
                     where, _, r = rest.partition(' ')
+                    if where == 'start':
+                        r = '⟦{⟧'
                     m = re.match(r'^⟦(.*)⟧\s*$', r.strip(), re.S)
                     nth = None
                     if '#' in where:
                         where, nth = where.split('#')
                         nth = int(nth)
+                    if where == 'start':
+                        where, nth = 'after', 1
                     if not m or where not in ('after', 'before'):
                         raise UnitError('%s:%d bad ins directive' % (self.path, i + 1))
                     blk = []
